@@ -464,6 +464,17 @@ def gen_run(seed: int, tier: str, sub: str) -> dict:
                 # compiled for the first time at the same moment
                 tw = ['q_a16', 'q_b8'] if t % 2 == 0 else ['q_b8', 'q_a16']
                 order = tw + [n for n in order if n not in tw]
+                if True:
+                    # twin storm: each thread derives a fresh copy of "its" twin and evaluates it at once, four
+                    # times over, each thread starting with the other twin -- every round is a first compilation
+                    # of two programs alike but for one embedded value, by two threads in step
+                    for rnd in range(4):
+                        for name in (tw if rnd % 2 == 0 else tw[::-1]):
+                            cargs, cctx = picks[name]
+                            ref = ['d', t, len(ops)]
+                            key = {'root': ['main', name], 'chain': [['simplify', {}]]}
+                            ops.append({'op': 'derive', 'src': ['main', name], 'strategy': 'simplify', 'kw': {}, 'ref': ref, 'key': key})
+                            ops.append({'op': 'call', 'fn': ref, 'key': key, 'args': cargs, 'ctx': cctx, 'rt': 'default', 'cancel': None})
             for name in order:
                 cargs, cctx = picks[name]
                 root = {'root': ['main', name], 'chain': []}
